@@ -201,6 +201,8 @@ def gen_world(rng, ntorrents=None, features=()):
     # presentation
     if rng.chance(1, 5):
         w.scan.append(w.export)                        # export directory among the scan directories
+    elif rng.chance(1, 8):
+        w.scan.append(())                              # the whole sandbox (contains export, bystanders, other scan dirs)
     if rng.chance(1, 6):
         w.docs = w.docs + [rng.choice(w.docs)]         # a torrent listed twice
     if rng.chance(1, 3):
@@ -452,7 +454,7 @@ def gen_world_c14(rng):
 def gen_world_c16(rng, i):
     """argument validation and degenerate-but-loadable torrents"""
     w = gen_world(rng, ntorrents=rng.choice([1, 2]))
-    k = i % 10
+    k = i % 11
     root_rel = lambda comps: "/".join(c.decode() for c in comps)
     if k == 0:
         w.scan_args = None; w.export_arg = root_rel(w.export); w.tag = "export relative"
@@ -477,8 +479,14 @@ def gen_world_c16(rng, i):
         w.docs = [b"not bencode", b"d4:infod4:name1:aee"]; w.has_truth = False; w.tag = "no loadable torrent"
     elif k == 8:
         w.docs = w.docs + [b"i1e"]; w.tag = "one unloadable torrent among good ones"
-    else:
-        w.tag = "plain"
+    elif k == 9:
+        # enormous declared lengths: nothing on disk has them, the run must simply report the pieces as failed
+        big = rng.choice([2**62, 2**63, 2**64 - 1, 2**40])
+        if rng.chance(1, 2):
+            doc = G.benc(G.meta_doc(name=b"huge", piece_length=big, length=big, nhashes=1))
+        else:
+            doc = G.benc(G.meta_doc(name=b"hugepad", piece_length=big, files=[(big, [b".pad", b"1"]), (3, [b"x"])], nhashes=2))
+        w.docs = w.docs + [doc]; w.has_truth = False; w.tag = "enormous declared length"
     return w
 
 def transform_presentation(rng, w, k):
